@@ -62,7 +62,7 @@ PROPS = {
             "int_cross", "uint_cross", "int_roundtrip", "uint_roundtrip", "bool_roundtrip", "byte_roundtrip",
             "bin64_roundtrip", "bin128_roundtrip", "bin256_roundtrip", "bytes_roundtrip", "string_roundtrip",
             "float64_roundtrip", "float32_as_float64", "float32_decodes", "float32_roundtrip", "float32_snan_quieted",
-            "float64_as_float32", "ieee_laws", "float32_roundtrip_ieee", "float32_widen_exact"]],
+            "float64_as_float32", "ieee_laws", "float32_roundtrip_ieee", "float32_widen_exact", "float64_as_float32_ieee"]],
         "ties": TIES,
         "streams": [wire_stream("c10")],
         "flag": WIRE_FLAG,
